@@ -327,6 +327,9 @@ func genScenario(r *kit.Rng, backend, kind string) *scenario {
 				st.Fault = genFault(r)
 			}
 		}
+		if !first && st.Fault == nil && (kind == "history" || kind == "rename") && r.Chance(1, 4) {
+			st.Kind = "redeploy" // the new version is deployed through the provider that is already running
+		}
 		first = false
 		sc.Steps = append(sc.Steps, st)
 		if st.Fault != nil && (kind == "retry" || kind == "rename" || r.Chance(1, 3)) {
